@@ -406,6 +406,29 @@ def ex_callers(ctx, ms_list):
                 ctx.violate("forecast %s differs from its datetime" % nm, {"exec": "callers", "args": {"ms_list": ms_list}},
                             observed=e, expected=want, tags={"fn": nm})
     ctx.call(cat.filter, "datetime >= %s" % d0.strftime("%Y-%m-%d %H:%M:%S.%f"), in_place=False)
+    # history: the datetimes of a catalog are those of the events it holds NOW - asked once, events reduced / replaced / re-ordered in place,
+    # asked again (catalogs with and without statistics bookkeeping; the second kind is what filter_spatial(in_place=False) hands out)
+    for k, stats in enumerate((False, True)):
+        if len(ms_list) < 2:
+            break
+        c2 = CSEPCatalog(data=ev, compute_stats=stats)
+        ctx.call(c2.get_datetimes)
+        how = (len(ms_list) + k + ms_list[0]) % 3
+        if how == 0:
+            thr = sorted(ms_list)[len(ms_list) // 2]
+            ctx.call(c2.filter, "origin_time >= %d" % thr)
+        elif how == 1:
+            c2.catalog = c2.catalog[::-1].copy()
+        else:
+            c2.catalog["origin_time"][...] = c2.catalog["origin_time"][::-1].copy()
+        now = [int(x) for x in c2.get_epoch_times()]
+        ok, dts2, tb = ctx.call(c2.get_datetimes)
+        ctx.mon("history:get_datetimes-after-in-place-change", 1)
+        want2 = [ms_to_dt(m) for m in now]
+        if all(LO_MS <= m <= HI_MS for m in now) and (not ok or list(dts2) != want2):
+            ctx.violate("catalog datetimes are not those of the events the catalog holds (asked again after an in-place change)",
+                        {"exec": "callers", "args": {"ms_list": ms_list}}, observed=repr(dts2)[:160] if not ok else [str(d) for d in list(dts2)[:4]],
+                        expected=[str(d) for d in want2[:4]], tags={"fn": "get_datetimes", "compute_stats": stats, "change": ["filter", "assigned", "origin_time written"][how]})
     ctx.count(len(ms_list))
 
 
